@@ -12,7 +12,7 @@ Executable specification for C06, written from the documents, not from the code:
                  else MissingWidth; times 1/1000, or times FontMatrix[0] for Type3.
 
 Shares with the model only the data types (`FontDict`, `DiffTok`, `TuEntry`, tables) and the functions
-that are pure parsing of the font dictionary's byte strings (`tuDefs`, `utf16beIgnore`, `placeholder`, and
+that are pure parsing of the font dictionary's byte strings (`tuDefs`, `utf16beIgnore`, and
 `resolveFontFile` = tokenising the clear-text header of an embedded Type 1 program into its `put` pairs).
 -/
 import PdfVerif.Model.Type1Header
@@ -218,11 +218,15 @@ def specUnicode (T : Tables) (fd : FontDict) (code : Int) : Option Text :=
     | none => encodingText T fd code
   | none => encodingText T fd code
 
+/-- The placeholder of the property: the characters `(cid:`, the code in decimal, `)`. -/
+def specPlaceholder (code : Int) : Text :=
+  [40, 99, 105, 100, 58] ++ (if code < 0 then [45] else []) ++ decDigits code.natAbs ++ [41]
+
 /-- The text reported for a code. -/
 def specText (T : Tables) (fd : FontDict) (code : Int) : Text :=
   match specUnicode T fd code with
   | some t => t
-  | none => placeholder code
+  | none => specPlaceholder code
 
 /-- `Widths[code - FirstChar]` when that index exists. -/
 def widthsEntry (fd : FontDict) (code : Int) : Option Rat :=
